@@ -7,10 +7,12 @@ import (
 	tls "github.com/refraction-networking/utls"
 )
 
+type dc struct{ net.Conn }
+
+func (d *dc) Write(p []byte) (int, error) { return len(p), nil }
+
 func main() {
-	a, b := net.Pipe()
-	_ = b
-	uc := tls.UClient(a, &tls.Config{ServerName: "x.test", InsecureSkipVerify: true}, tls.HelloChrome_Auto)
+	uc := tls.UClient(&dc{}, &tls.Config{ServerName: "x.test", InsecureSkipVerify: true}, tls.HelloChrome_Auto)
 	fmt.Println(uc.BuildHandshakeState())
 	for _, e := range uc.Extensions {
 		if cc, ok := e.(*tls.UtlsCompressCertExtension); ok {
@@ -20,5 +22,7 @@ func main() {
 	}
 	fmt.Println(uc.BuildHandshakeState())
 	res := tls.VerifDecompressCertOn(uc, 2, 5, []byte{1, 2, 3})
-	fmt.Println(res.Err)
+	fmt.Println("alg2:", res.Err)
+	res = tls.VerifDecompressCertOn(uc, 3, 5, []byte{1, 2, 3})
+	fmt.Println("alg3:", res.Err)
 }
